@@ -11,6 +11,8 @@ C = {
          "TLA+ SatSet table vs. real satisfier answers (Trace_Sat); MC_SatSet completeness lemma"),
  "C09": ("sat-pipeline", "model_checking", "every static figure (script size, witness count/size, scriptSig size, max weight, op count, plan sizes) is compared with the value measured on each produced satisfaction by the VM and the size model; limits clause checked on VM depth/op count", "5/C09",
          "TLA+ VM measurement + size model vs. library figures (Trace_Sat)"),
+ "C03": ("nonmall-pipeline", "model_checking", "every non-malleable satisfaction the library returns for a sane descriptor is attacked by exhaustive adversarial witness search (all stacks up to |w|+1 over the third-party alphabet) executed in the TLA+ VM under standardness rules; any accepted alternative is a violation; bounds in evidence", "5/C03",
+         "exhaustive bounded adversary search in the TLA+ Script VM against real non-malleable witnesses (Trace_NonMall)"),
  "C04": ("ast-pipeline", "model_checking", "alpha(encode(ms)) = Encode(ms) of MsSpec.tla, script_size = ByteLen, decode(encode) byte-identical / same type / same spendability, for all enumerated ASTs in 4 contexts", "5/C04",
          "TLA+ Encode/ByteLen templates vs. real encoder/decoder (Trace_Ast)"),
  "C05": ("types-pipeline", "model_checking", "every type rule evaluated by the real library over explicit child types (all 960 values of the last child per row) compared cell-by-cell with the specification tables in MsSpec.tla; exhaustive over reachable child types in thorough; plus Miniscript::ty of every enumerated AST", "5/C05",
@@ -31,6 +33,7 @@ C = {
          "structural identity of abstract ASTs (TLA+ Gen_Pairs) vs. library Eq/Ord/Hash matrix (Trace_Eq)"),
 }
 ENG = {
+ "nonmall-pipeline": ("bin/check (run_nonmall)", "TLC Gen_Sat -> msverif sat -> TLC Trace_NonMall"),
  "plan-pipeline": ("bin/check (run_plan)", "TLC Gen_Sat -> msverif plan (Assets, plan/plan_mall, lock variants) -> TLC Trace_Plan"),
  "interp-pipeline": ("bin/check (run_interp)", "TLC Gen_Sat -> msverif interp (library satisfactions + rendered mutations) -> TLC Trace_Interp"),
  "typesound-pipeline": ("bin/check (run_typesound)", "TLC Gen_Ast -> msverif ast -> TLC Trace_TypeSound + MC_TypeSound"),
